@@ -158,15 +158,9 @@ class DeletionOracle(history.Oracle):
         if k == "space":
             return False
         if k == "cells":
-            dc = gen.visible_cells(rs)
-            h["name"] = h["definer"].name        # a rename is not a deletion: the handle follows the new name
-            if h["name"] not in dc:
-                return True
-            if h["definer"].deleted:
-                # the definition it was obtained from is gone; if the name is visible again through another
-                # definition the handle may have been re-created: raises or current
-                return None
-            return None if dc[h["name"]][1] is not h["definer"] else False
+            # a rename is not a deletion, and a derived cells may live on under another definition (and name) when its
+            # definition is deleted: the handle must raise or be an object currently listed in the space (identity)
+            return None
         if k == "ref":
             try:
                 dr = rm.derived_refs(rs)
@@ -191,7 +185,10 @@ class DeletionOracle(history.Oracle):
         if k == "space":
             return sp
         if k == "cells":
-            return sp.cells.get(h["name"])
+            for c in sp.cells.values():
+                if c is h["obj"]:
+                    return c
+            return None
         if k == "ref":
             return None
         items = sp.itemspaces
